@@ -53,6 +53,31 @@ def analyse(spec):
   out['posterior'] = (loc, scale, dfree)
   if dfree != spec['n_pre'] - 2:
     out['fails'].append('degrees of freedom %r, expected n_pre - 2 = %d' % (dfree, spec['n_pre'] - 2))
+  # the optional arguments of the posterior: one day (time), another unit (rescale), both, and the test period alone
+  import numpy as np
+  r5 = random.Random(spec['seed'] * 59 + 7)
+  for _ in range(3):
+    t = r5.choice([-1, 0, len(loc) - 1, r5.randrange(len(loc))])
+    r = r5.choice([0.25, 2.5, 1.0, 8.0])
+    for kw in ({'time': t}, {'rescale': r}, {'time': t, 'rescale': r}):
+      d2 = m.causal_cumulative_distribution(**kw)
+      l2, s2 = np.atleast_1d(np.array(d2.kwds['loc'], dtype=float)), np.atleast_1d(np.array(d2.kwds['scale'], dtype=float))
+      rr = kw.get('rescale', 1.0)
+      wl = [rr * loc[t]] if 'time' in kw else [rr * v for v in loc]
+      ws = [rr * scale[t]] if 'time' in kw else [rr * v for v in scale]
+      if not (len(l2) == len(wl) and all(close(a, b, 1e-12) for a, b in zip(l2, wl)) and all(close(a, b, 1e-12) for a, b in zip(s2, ws))
+              and float(d2.args[0]) == dfree):
+        out['fails'].append('causal_cumulative_distribution(%s) is not the default posterior %s'
+                            % (', '.join('%s=%r' % kv for kv in kw.items()),
+                               'at that day' + (' in the new unit' if 'rescale' in kw else '') if 'time' in kw else 'in the new unit'))
+        break
+  if spec['n_cool'] > 0:
+    per = tbrfam.NAMING['period_test'] if spec.get('custom_names') else 1
+    d3 = m.causal_cumulative_distribution(periods=(per,))
+    l3, s3 = [float(v) for v in d3.kwds['loc']], [float(v) for v in d3.kwds['scale']]
+    nt = spec['n_test']
+    if not (len(l3) == nt and all(close(a, b, 1e-12) for a, b in zip(l3, loc[:nt])) and all(close(a, b, 1e-12) for a, b in zip(s3, scale[:nt]))):
+      out['fails'].append('causal_cumulative_distribution(periods=(test,)) is not the posterior of the test days')
   # layout independence
   for name, kw in (('shuffled rows', {'shuffle': spec['seed']}), ('group split over more geos', {'split': True}),
                    ('unassigned geo added', {'extra': True})):
